@@ -58,7 +58,7 @@ def generate(rseed, tier='quick'):
       pools[i] = ['^g2/', '^g2/', '^(?!g2/)'] + pools[i]
   knobs = {
       'faults': r.random() < 0.75,
-      'container': r.choice(['list', 'gen', 'iter', 're']),
+      'container': r.choice(['list', 'gen', 'iter', 're', 'tuple', 'reuse']),
       'share_model_bytearray': r.random() < 0.5,
       'large_threshold': r.choice([None, None, None, 0, 2**31]),
   }
@@ -135,7 +135,7 @@ def generate(rseed, tier='quick'):
       has_recipe[q] = True
     elif k == 'load_shared':
       i = r.randrange(len(shared_recipes))
-      ops.append({'op': 'load', 'q': q, 'recipe': i})
+      ops.append({'op': 'load', 'q': q, 'recipe': i, 'as_tuple': r.random() < 0.2})
       rules[q] = list(shared_recipes[i])
       has_recipe[q] = True
     elif k == 'calibrate':
@@ -154,13 +154,18 @@ def generate(rseed, tier='quick'):
       cid = 'c%d' % next_cid
       next_cid += 1
       if modelgen.is_multi(models[mi]):
-        ops.append({'op': 'synth_stats', 'q': q, 'out': cid})
+        ops.append({'op': 'synth_stats', 'q': q, 'out': cid, 'py_floats': r.random() < 0.3})
         calibs.append((cid, mi))
         continue
       ops.append({'op': 'calibrate', 'q': q, 'data': di, 'lo': lo, 'hi': hi, 'prev': prev,
                   'fault': fault, 'out': cid})
       if fault is None:
         calibs.append((cid, mi))
+        if r.random() < 0.2:
+          rid = 'c%d' % next_cid
+          next_cid += 1
+          ops.append({'op': 'restore', 'src': cid, 'out': rid, 'form': r.choice(['f64', 'pyfloat', 'list'])})
+          calibs.append((rid, mi))
     elif k == 'quantize':
       mine = [c for c in calibs if c[1] == mi]
       calib = None
@@ -386,6 +391,10 @@ def execute(doc):
           lst = [A.rule_dict(*ru) for ru in op['rules']]
           owned.add('recipe:lit@%d' % step, lst, 'recipe')
         literal = copy.deepcopy(lst)
+        if op.get('as_tuple') and isinstance(lst, list):
+          lst = tuple(lst)          # any sequence of rule dicts is accepted
+          owned.add('recipe:tuple@%d' % step, lst, 'recipe')
+          rec.probe('recipe_as_tuple')
         try:
           Q['obj'].load_quantization_recipe(lst)
           outcome = 'ok'
@@ -430,6 +439,25 @@ def execute(doc):
         owned.add('calib:' + op['out'], ret, 'calibration-result')
         rec.event(step, 'calibrate', 'returned', core.digest(ret))
       call = 'calibrate()'
+    elif kind == 'restore':
+      # a calibration result restored from storage in another numeric form (json/npz round trip):
+      # float64 arrays, Python floats or nested lists instead of float32 arrays
+      src = calibs.get(op['src'])
+      if src is None or op['src'] == 'EMPTY':
+        continue
+      import numpy as np
+      def conv(v):
+        a = np.asarray(v)
+        if op['form'] == 'f64':
+          return a.astype(np.float64) if a.dtype.kind == 'f' else a.copy()
+        if op['form'] == 'pyfloat' and a.size == 1:
+          return float(a.reshape(-1)[0])
+        return a.astype(np.float64).tolist() if a.dtype.kind == 'f' else a.tolist()
+      ret = {k: {sk: conv(sv) for sk, sv in v.items()} for k, v in pickle.loads(src['pristine']).items()}
+      calibs[op['out']] = {'obj': ret, 'pristine': pickle.dumps(ret, protocol=4), 'model': src['model']}
+      owned.add('calib:' + op['out'], ret, 'calibration-result')
+      rec.probe('restored_statistics_' + op['form'])
+      rec.event(step, 'restore', 'ok', core.digest(ret))
     elif kind == 'synth_stats':
       Q = qs.get(op['q'])
       if Q is None:
@@ -442,6 +470,11 @@ def execute(doc):
         if d['model'] == Q['model']:
           by_sig.setdefault(d.get('sig', 0), datasets[di])
       ret = synth_stats(spec, mbytes, by_sig)
+      if op.get('py_floats'):
+        # statistics handed in as plain Python numbers, as a user writing them by hand would
+        ret = {k: {'min': float(v['min'].reshape(-1)[0]), 'max': float(v['max'].reshape(-1)[0])}
+               for k, v in ret.items()}
+        rec.probe('stats_as_python_floats')
       calibs[op['out']] = {'obj': ret, 'pristine': pickle.dumps(ret, protocol=4), 'model': Q['model']}
       owned.add('calib:' + op['out'], ret, 'calibration-result')
       rec.probe('multi_signature_stats')
